@@ -101,6 +101,11 @@ def check(h, reason):
     specs = h.specs
     mark = next((e for e in ev if e["kind"] == "mark:before-shutdown"), None)
     m_seq = mark["seq"] if mark else 10**12
+    # 1a. no coroutine payload starts or resumes while another one of its flavour is between two
+    #     checkpoints (same-thread re-entrancy counts: "may share state without locks")
+    for e in ev:
+        if e["kind"] == "nested-segment" and e["flavour"] in ("asyncio", "trio"):
+            V("C11/nested-segment/%s" % e["flavour"], "%s payload %s started or resumed while %s payload %s was between two checkpoints" % (e["flavour"], e["pid"], e["flavour"], e["inside"]))
     # 1. overlap detector
     for e in ev:
         if e["kind"] == "overlap" and e["flavour"] in ("asyncio", "trio"):
